@@ -1478,6 +1478,10 @@ func (r *Runtime) RunProgram(p *Program) (result Value, err error) {
 				}
 				vm.vt("ApiExit", "uncatchable")
 			} else {
+				if len(vm.callStack) == 0 {
+					vm.prg = nil
+					vm.sb = -1
+				}
 				vm.vt("ApiExit", "foreign")
 				panic(x)
 			}
